@@ -87,6 +87,15 @@ def thorough_hook(pid, evidence):
         cov["selftest"]["engine_unit_tests"] = (u.stdout.strip().splitlines() or ["no output"])[-1]
     except Exception as e:
         cov["selftest"]["engine_unit_tests"] = "not run: %s" % e
+    try:
+        # rules subordinated to the reference comparison (sa/refguard.py) must hold on their own on the reviewed tree: run unguarded
+        g = subprocess.run([os.path.join(HERE, "check"), pid, "--no-evidence"], capture_output=True, text=True, timeout=600, env=dict(os.environ, VERIF_NO_GUARD="1"))
+        bad = [l for l in g.stdout.splitlines() if l.startswith("VIOLATED")]
+        cov["selftest"]["unguarded_rules"] = "hold" if g.returncode == 0 and not bad else "FAIL: " + "; ".join(bad[:3])[:400]
+        if bad:
+            print("  selftest note: a guarded rule does not hold on its own on the reviewed tree: %s" % bad[0][:200])
+    except Exception as e:
+        cov["selftest"]["unguarded_rules"] = "not run: %s" % e
     cov["evaluations"] = cov.get("evaluations", 0) + len(res)
     print("selftest %s: %d/%d breaking variants killed, %d/%d refactoring twins silent" % (
         pid, cov["selftest"]["breaking_killed"], cov["selftest"]["breaking_total"], cov["selftest"]["twins_silent"], cov["selftest"]["twins_total"]))
